@@ -180,7 +180,8 @@ P = {
  "C17": ("Dsl", "Theorems (Props/C17.v): generated identifiers are fresh (never collide with ids the document registered), buffer ids are "
          "unique, listed stores keep their order, the model is a function (deterministic); the initial state of EVERY accepted document "
          "satisfies the hypotheses of the state-machine theorems: fresh_b (C01), clock_b (C12), agv_load_b (C03) "
-         "(C17_initial_state_meets_hypotheses). Tie: as C16, plus compiling the same text in "
+         "(C17_initial_state_meets_hypotheses), nodep_b, agv_phase_b, inactive outage records, AGVs idle and empty "
+         "(C17_initial_state_meets_the_agv_and_outage_hypotheses). Tie: as C16, plus compiling the same text in "
          "processes with different PYTHONHASHSEED must give identical results; the compiled initial state must satisfy the store/clock "
          "clauses and fresh_b."),
  "C18": ("Env", "Theorems (Props/C18.v; SMP/Decline): declining with k>1 offers leaves the shop untouched and removes exactly that offer; "
